@@ -38,7 +38,20 @@ def case_strategy(tier):
         w = draw(st.sampled_from(sorted(WRITERS)))
         ln = gen.lines(meta=True, pipe=(w != "microdvd"), markers=True)
         s = draw(gen.simple_set(ln, 1, 4, gen.HOUR, min_dur=gen.SEC, empty_lines=True,
-                                split_nodes=True, min_gap=40 * gen.MS))
+                                split_nodes=True, min_gap=40 * gen.MS, empty_kinds=("br", "br", "style")))
+        if w in ("webvtt", "dfxp") and draw(st.integers(0, 3)) == 0:
+            # text nodes positioned differently: WebVTT splits such a caption into several cues
+            # with the same times (re-assembled by the check)
+            L = [{"origin": [[10, "%"], [10, "%"]], "extent": None, "padding": None, "align": ["left", "top"], "webvtt": None},
+                 {"origin": [[20, "%"], [70, "%"]], "extent": [[60, "%"], [20, "%"]], "padding": None, "align": None, "webvtt": None}]
+            for c in s["langs"][0]["cues"]:
+                pick = draw(st.integers(0, 1))
+                for n in c["nodes"]:
+                    if "br" in n:
+                        pick = draw(st.integers(0, 1))
+                    if "t" in n:
+                        n["layout"] = L[pick]
+                c["layouts"] = True
         case = {"writer": w, "set": s}
         if draw(st.integers(0, 3)) == 0:
             case["prev"] = draw(gen.simple_set(ln, 1, 2, gen.HOUR, min_dur=gen.SEC, empty_lines=False))
@@ -69,7 +82,16 @@ def extract(w, out):
     if w == "srt":
         return [c["lines"] for c in P.parse_srt(out)]
     if w == "webvtt":
-        return [P.vtt_payload_lines(c["lines"]) for c in P.parse_webvtt(out)]
+        cues = []
+        prev = None
+        for c in P.parse_webvtt(out):
+            lines = P.vtt_payload_lines(c["lines"])
+            if prev == (c["start"], c["end"]):
+                cues[-1] += lines      # same caption, other positioning
+            else:
+                cues.append(lines)
+            prev = (c["start"], c["end"])
+        return cues
     if w.startswith("dfxp"):
         doc = P.parse_dfxp(out)
         return [p["lines"] for d in doc["divs"] for p in d["ps"]]
@@ -129,6 +151,8 @@ def check_case(case, rec):
         rec.label("split-nodes")
     if any(c.get("blank_nodes") for c in cues):
         rec.label("blank-text-node-lines")
+    if any(c.get("layouts") for c in cues):
+        rec.label("per-line-layouts")
 
 
 def subchecks(tier):
